@@ -32,9 +32,10 @@ BooleanObject = EDataType('BooleanObject',
                           to_string=lambda x: str(x).lower(),
                           from_string=lambda x: x in ['True', 'true'])
 
-Byte = EDataType('Byte', instanceClassName='byte')
+Byte = EDataType('Byte', instanceClassName='byte', from_string=int)
 
-ByteObject = EDataType('ByteObject', instanceClassName='java.lang.Byte')
+ByteObject = EDataType('ByteObject', instanceClassName='java.lang.Byte',
+                       from_string=int)
 
 Date = EDataType('Date',
                  instanceClassName='javax.xml.datatype.XMLGregorianCalendar')
